@@ -60,8 +60,9 @@ Classes of behaviour added in round 7 (each was a blind spot of the workload):
             source keys), and into the player's prototype event.  Such a rest
             must be silent, keep its delta, and must not end the player or a
             sibling of a Ppar (.../rest-is-played/rest-object-in-...).
-            Kept out: Rest objects in `delta` (Ppar and Pdur rewrite the delta
-            of the events passing through them, see AUDIT).
+            Rest objects in `delta` are generated as well (a rest alone and
+            below Pdur, so also below Ppar: .../ppar-child-rest-by-rest-valued-
+            delta-is-played).
 """
 
 import itertools
@@ -115,9 +116,9 @@ release of a Pmono cut by Pdur: only 'not before the cut' | statement
   silent about Pmono release; SuperCollider releases at the cut          | tolerated
 simultaneous events: order free | statement silent                      | tolerated
 node ids fresh per score, not per process | a reset starts a new server  | tolerated
-Rest object in `delta` (Pbind column) | Ppar / Pdur overwrite the delta of a
-  child's event, the Rest is gone and the event plays (as in SuperCollider's
-  Ppar); whether that child event is still "a rest" is not decided       | kept out
+Rest object in `delta` (Pbind column): generated; below a Ppar the Rest is
+  replaced by a number and the event plays - genuine, one key
+  (proposed_fixes/C14-ppar-drops-rest-valued-delta.md)                   | reported
 played event objects: no popitem / clear without re-adding the keys | play()
   stores server, group, msg_params, is_playing ... in the object; removing
   those is an override-key case (kept out above)                         | kept out
@@ -630,6 +631,24 @@ def run_timeline(spec, acc):
             # is no control of the instrument): what else differs follows
             played = any(k == 'rest-sent-traffic'
                          and d.get('tag') in ex.odd_rest_tags for k, d in bad)
+        # diagnosis: a child of a Ppar whose event is a rest only by the Rest
+        # object in its delta - the Ppar replaces the delta by a plain number
+        # and the event is played (a Pmono child's first event: before it was
+        # prepared, KeyError)
+        if ex.delta_only_rest_tags and 'ppar' in kinds and (
+                any(k == 'rest-sent-traffic'
+                    and d.get('tag') in ex.delta_only_rest_tags
+                    for k, d in bad)
+                or (isinstance(err, KeyError)
+                    and ('event.py', 'play') in tb_sites(err))):
+            del case['expanded']
+            acc.violation('C14/timeline/ppar-child-rest-by-rest-valued-delta-'
+                          'is-played',
+                          {'case': i, 'timeline_case': case,
+                           'sent': [d for k, d in bad
+                                    if k == 'rest-sent-traffic'][:2],
+                           'tb': short_tb(err) if err is not None else None})
+            continue
         if played:
             del case['expanded']
             where = ('prototype-event' if case.get('proto') == 'event-rest'
